@@ -113,6 +113,8 @@ def enum(did, variants, style="none", prefix=None, aci=False, phf=False, perr=Fa
              variants=list(variants))
     if did % 3 == 1:
         d["eorder"] = did * 17 + 3          # the enum-level items are written in another order
+    if did % 8 == 7:
+        d["via_macro"] = True               # declared through a macro_rules! helper (print_enum / wrap_in_macro)
     d.update(extra)
     return d
 
